@@ -3,6 +3,7 @@
 import copy
 import io
 import os
+import re
 import signal
 import sys
 import traceback
@@ -24,7 +25,10 @@ RULE = ("three feature-covering seed documents (embedded TrueType / Type 1 / CFF
         "inherited page attributes, Flate content); every single structural fault: each dictionary value and array "
         "element replaced by a value of another type (int, negative, real, 10^12, name, string, empty/non-empty array and "
         "dictionary, null, boolean, a reference to the object itself, to a missing object, into a cycle), each key or "
-        "element removed, each stream payload halved / emptied / randomised / extended; truncation of the file at 60 "
+        "element removed, each stream's own /Length replaced likewise, each stream payload halved / emptied / randomised / extended; "
+        "single faults INSIDE payloads: every operand token of every content stream, form and CMap stream of the seeds and of a "
+        "fourth document using every operand-bearing construct (inline image dictionaries with filters, every ToUnicode / CMap "
+        "section kind, usecmap, marked-content property lists) replaced by a token of another type or removed; truncation of the file at 60 "
         "points; run through extract_text, extract_pages and extract_text_to_fp(xml) under a call budget proportional to "
         "the seed's own cost and a wall-clock alarm; outcome classes: returns / library exception family "
         "(PSException and its subclasses, i.e. every PDF* error) / leak (type and innermost pdfminer frame) / RecursionError / budget exceeded. "
@@ -49,7 +53,7 @@ MANIFEST_ENTRY = {
             "guarded descents (forms, number/name tree Kids) terminate on every finite object graph, cyclic or not, at "
             "depth <= number of objects + 1; the chain of cross-reference sections terminates on every graph of /Prev and "
             "/XRefStm links and reads no section twice; CMap and W ranges take <= 65536 steps and are exact below the limit. "
-            "Observed fault by fault over three seed documents and over the trailer / cross-reference-stream / object-stream "
+            "Observed fault by fault over four seed documents (object level and token level inside stream payloads) and over the trailer / cross-reference-stream / object-stream "
             "dictionaries of a two-revision file: no hang, no RecursionError, no leaked internal error, work "
             "within budget (the one recorded exception: work proportional to the page area in the layout plane).",
     "note": "Trusted: Coq kernel, hand model tied by differential runs, the fault enumerator and classifier.",
@@ -187,7 +191,7 @@ def seed3():
 SEEDS = [("seed1", seed1), ("seed2", seed2), ("seed3", seed3)]
 # (object, path, replacement) of the single faults that exposed a defect since repaired in /repo
 CORPUS = {
-    "seed1": [(3, "Resources/ColorSpace/Cs", []), (3, "Resources/ColorSpace/Cs/1", [1, 2]), (22, "<dict>/N", "REMOVE"),
+    "seed1": [(4, "<dict>/Length", "SELF"), (3, "Resources/ColorSpace/Cs", []), (3, "Resources/ColorSpace/Cs/1", [1, 2]), (22, "<dict>/N", "REMOVE"),
               (10, "DescendantFonts", None)],
     "seed2": [(13, "FontBBox", None), (14, "DescendantFonts", None), (15, "DW2", Name("X")), (15, "DW2/0", Name("X")),
               (15, "DW2/1", "REMOVE"), (15, "DW2", {"A": 1}), (15, "W2/1/1", b"str"), (15, "W2/2", 1.5), (5, "<data>", "randomised")],
@@ -232,6 +236,24 @@ def setp(v, path, new, remove=False):
 
 def apply_fault(objs, n, path, rep, r):
     o2 = dict(objs)
+    if len(path) >= 2 and path[-1] == "Length" and path[-2] == "<dict>" and isinstance(objs[n], Stream) and len(path) == 2:
+        # the stream's own /Length (normally written by the serialiser) replaced by a value of another type
+        st = copy.deepcopy(objs[n])
+        st.set_length = False
+        if rep == "REMOVE":
+            st.d.pop("Length", None)
+        elif rep == "SELF":
+            st.d["Length"] = Ref(n)
+        elif rep == "MISSING":
+            st.d["Length"] = Ref(999)
+        elif rep == "CYCLE":
+            st.d["Length"] = Ref(900)
+            o2[900] = [Ref(901)]
+            o2[901] = {"A": Ref(900)}
+        else:
+            st.d["Length"] = rep
+        o2[n] = st
+        return o2
     if path[-1] == "<data>":
         d = objs[n].data
         new = {"halved": d[:len(d) // 2], "emptied": b"", "randomised": bytes(r.randrange(256) for _ in d), "extended": d + b"junk \xff"}[rep]
@@ -336,6 +358,8 @@ def fault_cases(ctx, per_seed, ntrunc):
             for p in sites(v):
                 reps = ["halved", "emptied", "randomised", "extended"] if p[-1] == "<data>" else REPL
                 jobs += [(n, p, rep) for rep in reps]
+            if isinstance(v, Stream):
+                jobs += [(n, ("<dict>", "Length"), rep) for rep in REPL]
         all_jobs = list(jobs)
         r = ctx.sub("faults", sname)
         r.shuffle(jobs)
@@ -532,6 +556,98 @@ def crypt_cases(ctx, limit):
     logging.disable(logging.NOTSET)
 
 
+TOKEN = re.compile(rb"/[^\s/\[\]<>()%{}]*|[-+]?(?:\d+\.?\d*|\.\d+)|\((?:[^()\\]|\\.)*\)|<[0-9A-Fa-f\s]*>(?!>)")
+TOKEN_REPL = [b"/Identity-H", b"5", b"-1", b"1.5", b"999999999999", b"/X", b"(str)", b"<FFFFFFFF>", b"[]", b"[1 2]", b"<< >>", b"<< /A 1 >>", b"null", b"true", b""]
+# (seed, object, token index, replacement) of the payload faults that exposed a defect since repaired in /repo
+PAYLOAD_CORPUS = [("seedp", 4, 41, b"1.5"), ("seedp", 4, 41, b"[]"), ("seedp", 4, 41, b"<< >>"), ("seed1", 9, 6, b"true"),
+                  ("seed1", 9, 6, b"<FFFFFFFF>"), ("seedp", 6, 3, b""), ("seedp", 6, 29, b"999999999999"), ("seedp", 6, 28, b"-1"),
+                  ("seedp", 8, 7, b"/Identity-H")]
+
+
+def payload_streams(objs):
+    """the unfiltered streams whose payload is PDF/PostScript syntax: content streams, form XObjects, CMaps"""
+    for n, v in sorted(objs.items()):
+        if isinstance(v, Stream) and not v.d.get("Filter") and "Length1" not in v.d and v.d.get("Subtype") != Name("Image"):
+            d = v.data
+            if d and sum(1 for b in d if 32 <= b < 127 or b in (9, 10, 13)) > 0.9 * len(d):
+                yield n, v
+
+
+def payload_cases(ctx, limit):
+    """single faults INSIDE stream payloads: every operand token of every content stream, form and CMap stream of the
+    seed documents (inline image dictionaries and ToUnicode sections included) replaced by a token of another type"""
+    import logging
+    logging.disable(logging.CRITICAL)
+    eps = entry_points()
+    if limit:
+        eps = [eps[0], eps[3]]
+    for sname, mk in SEEDS + [("seedp", seed_payload)]:
+        objs = mk()
+        pdf0 = write_pdf(objs, 1)
+        base = {}
+        for ename, fn in eps:
+            cls, det, calls = run_budgeted(fn, pdf0, 10 ** 9)
+            base[ename] = calls
+            if cls != "ok":
+                ctx.violation("seed", {"seed": sname, "entry": ename}, "ok", (cls, det), "the undamaged seed does not extract")
+        jobs = []
+        for n, v in payload_streams(objs):
+            toks = list(TOKEN.finditer(v.data))
+            for k, m in enumerate(toks):
+                for rep in TOKEN_REPL:
+                    if rep != m.group(0):
+                        jobs.append((n, k, rep))
+        r = ctx.sub("payload", sname)
+        r.shuffle(jobs)
+        first = [(n, k, rep) for (s0, n, k, rep) in PAYLOAD_CORPUS if s0 == sname]
+        if limit:
+            jobs = jobs[:limit]
+        jobs = first + [j for j in jobs if j not in first]
+        for n, k, rep in jobs:
+            v = objs[n]
+            toks = list(TOKEN.finditer(v.data))
+            if k >= len(toks):
+                continue
+            m = toks[k]
+            o2 = dict(objs)
+            o2[n] = Stream(v.d, v.data[:m.start()] + rep + v.data[m.end():])
+            pdf = write_pdf(o2, 1)
+            one(ctx, eps, base, sname, {"seed": sname, "object": n, "token": k, "was": m.group(0).decode("latin-1"), "fault": rep.decode("latin-1")}, pdf)
+    logging.disable(logging.NOTSET)
+
+
+def seed_payload():
+    """a document whose payloads use every operand-bearing construct: inline images with filters and colour spaces,
+    every ToUnicode / CMap section kind, usecmap, marked content with property lists, shading and XObject operators"""
+    tu = (b"/CIDInit /ProcSet findresource begin 12 dict begin begincmap /CIDSystemInfo << /Registry (Adobe) /Ordering (UCS) "
+          b"/Supplement 0 >> def /CMapName /Adobe-Identity-UCS def /CMapType 2 def 1 begincodespacerange <00> <FF> endcodespacerange "
+          b"2 beginbfchar <41> <0041> <42> /B endbfchar 3 beginbfrange <43> <45> <0043> <46> <47> [<0046> <00470048>] <48> <49> <FFFE> endbfrange "
+          b"1 begincidchar <4a> 74 endcidchar 1 begincidrange <4b> <4d> 75 endcidrange endcmap CMapName currentdict /CMap defineresource pop end end")
+    enc = (b"/CIDInit /ProcSet findresource begin 12 dict begin begincmap /CMapName /Custom def /WMode 0 def /H usecmap "
+           b"1 begincodespacerange <0000> <FFFF> endcodespacerange 1 begincidrange <0041> <0045> 100 endcidrange "
+           b"1 begincidchar <0050> 200 endcidchar 1 beginnotdefrange <0000> <001f> 1 endnotdefrange endcmap end end")
+    content = (b"q 1 0 0 1 10 10 cm /Cs1 cs 0.5 sc /GS0 gs BT /F1 12 Tf 10 100 Td (ABCDEFGHIJKLM) Tj /F2 10 Tf 0 -14 Td <00410050> Tj ET "
+               b"BI /W 2 /H 2 /BPC 8 /CS /G /F [/AHx] /DP [null] ID 00ff00ff> EI "
+               b"BI /W 2 /H 1 /BPC 8 /CS /RGB /F /A85 ID 5sdq,70~> EI "
+               b"BI /W 8 /H 1 /BPC 1 /IM true /D [1 0] ID \xaa EI "
+               b"/Tag << /MCID 0 >> BDC 0 0 5 5 re f EMC /Tag /P0 DP /Fm0 Do Q")
+    return {
+        1: {"Type": Name("Catalog"), "Pages": Ref(2)},
+        2: {"Type": Name("Pages"), "Kids": [Ref(3)], "Count": 1},
+        3: {"Type": Name("Page"), "Parent": Ref(2), "MediaBox": [0, 0, 300, 300], "Contents": Ref(4),
+            "Resources": {"Font": {"F1": Ref(5), "F2": Ref(7)}, "ColorSpace": {"Cs1": Name("DeviceGray")},
+                          "ExtGState": {"GS0": {"LW": 2}}, "XObject": {"Fm0": Ref(10)}, "Properties": {"P0": {"MCID": 1}}}},
+        4: Stream({}, content),
+        5: {"Type": Name("Font"), "Subtype": Name("Type1"), "BaseFont": Name("Helvetica"), "ToUnicode": Ref(6)},
+        6: Stream({}, tu),
+        7: {"Type": Name("Font"), "Subtype": Name("Type0"), "BaseFont": Name("Foo"), "Encoding": Ref(8), "DescendantFonts": [Ref(9)]},
+        8: Stream({"Type": Name("CMap"), "CMapName": Name("Custom"), "CIDSystemInfo": {"Registry": b"Adobe", "Ordering": b"Japan1", "Supplement": 0}}, enc),
+        9: {"Type": Name("Font"), "Subtype": Name("CIDFontType0"), "BaseFont": Name("Foo"),
+            "CIDSystemInfo": {"Registry": b"Adobe", "Ordering": b"Japan1", "Supplement": 0}, "DW": 1000},
+        10: Stream({"Type": Name("XObject"), "Subtype": Name("Form"), "BBox": [0, 0, 50, 50]}, b"0 0 m 10 10 l S BT /F1 9 Tf (A) Tj ET"),
+    }
+
+
 def one(ctx, eps, base, sname, inp, pdf):
     for ename, fn in eps:
         budget = 40 * base[ename] + 200000
@@ -711,6 +827,7 @@ def correspondence(ctx):
     fault_cases(ctx, ctx.n(220, 0), ctx.n(12, 60))
     struct_cases(ctx, ctx.n(60, 0))
     crypt_cases(ctx, ctx.n(80, 0))
+    payload_cases(ctx, ctx.n(150, 0))
 
 
 def oracle(ctx):
